@@ -226,6 +226,32 @@ def decoder_limits(r, F):
         # (NeedMore) is reachable only past the `bytes == MAX_BYTES` test taken on its false side -- an over-long integer
         # whose fifth octet is the last one available is IntegerOverflow now, not NeedMore now and IntegerOverflow on
         # resumption (seeded C11-g)
+        # RFC 7541 section 5.1: the prefix alone is the value exactly when it is *below* the all-ones mask; a prefix equal to the mask
+        # announces continuation octets.  The early `return Ok(ret)` is on the `lt` side of `ret` against `mask` and that
+        # side holds `lt` only.
+        names = {l: di.local_name(l) for l in range(len(di.locals))}
+
+        def mentions(e, nm):
+            return any(x[0] == 'var' and names.get(x[1]) == nm for x in walk(e))
+        single = []
+        for bi, sw in core.all_switches(F, di).items():
+            for flip in (False, True):
+                cr = core.cmp_regions(sw, flip)
+                if cr and mentions(cr[0], 'ret') and mentions(cr[1], 'mask') and not mentions(cr[0], 'mask'):
+                    single.append((bi, cr[2]))
+        oks = [bi for bi, si, pl, rv, ln in di.stmts() if pl == [0] and rv[0] == 'aggr' and rv[2].endswith('Result::Ok')]
+        ok = len(single) == 1 and bool(oks)
+        if ok:
+            bi, regs = single[0]
+            lt_edges = [(bi, s2) for s2, o in regs.items() if o == frozenset(['lt'])]
+            rest_ok = all(o == frozenset(['lt']) or 'lt' not in o for o in regs.values())
+            early = [o2 for o2 in oks if lt_edges and di.dominated_by_edges(o2, lt_edges)]
+            # the continuation loop is not entered on the lt side
+            be = di.back_edges()
+            loopblocks = set(a for a, b in be)
+            lt_reach = di.reachable([s2 for (_, s2) in lt_edges]) if lt_edges else set()
+            ok = bool(lt_edges) and rest_ok and bool(early) and not (loopblocks & lt_reach)
+        r.check(ok, 'int|prefix-below-mask', di.file, 'the prefix alone is the value exactly when prefix < mask (2^N - 1); a prefix equal to the mask goes on to the continuation octets (RFC 7541 section 5.1)')
         bl = [l for l in range(len(di.locals)) if di.local_name(l) == 'bytes']
         incs = [bi for bi, si, pl, rv, ln in di.stmts() if bl and pl == [bl[0]] and strip(di.expr_of_rvalue(rv))[0] == 'bin' and strip(di.expr_of_rvalue(rv))[1] in ('Add', 'AddWithOverflow', 'AddUnchecked')]
         below = core.edges_where(F, di, lambda sw: core.cmp_of(sw) is not None and core.cmp_of(sw)[0] == 'Eq' and any(c[1] == mb for c in core.consts_in(sw.subject)), lambda l: l is False)
